@@ -2474,7 +2474,8 @@ class _DOP853(_AdaptiveStepRK):
                 err_norm = 0.0
             else:
                 denom = err5_norm_2 + 0.01 * err3_norm_2
-                err_norm = np.abs(h) * err5_norm_2 / np.sqrt(denom * scale.size)
+                # err5 / err3 returned by the step kernel already carry the factor h
+                err_norm = err5_norm_2 / np.sqrt(denom * scale.size)
 
             if err_norm <= 1.0:
                 t_new = t + h
@@ -2601,7 +2602,8 @@ class _DOP853(_AdaptiveStepRK):
                 err_norm = 0.0
             else:
                 denom = err5_norm_2 + 0.01 * err3_norm_2
-                err_norm = np.abs(h) * err5_norm_2 / np.sqrt(denom * scale.size)
+                # err5 / err3 returned by the step kernel already carry the factor h
+                err_norm = err5_norm_2 / np.sqrt(denom * scale.size)
 
             if err_norm <= 1.0:
                 t_new = t + h
@@ -2783,7 +2785,8 @@ class _DOP853(_AdaptiveStepRK):
                 err_norm = 0.0
             else:
                 denom = err5_norm_2 + 0.01 * err3_norm_2
-                err_norm = np.abs(h) * err5_norm_2 / np.sqrt(denom * scale.size)
+                # err5 / err3 returned by the step kernel already carry the factor h
+                err_norm = err5_norm_2 / np.sqrt(denom * scale.size)
 
             if err_norm <= 1.0:
                 # accept
@@ -2848,7 +2851,8 @@ class _DOP853(_AdaptiveStepRK):
                 err_norm = 0.0
             else:
                 denom = err5_norm_2 + 0.01 * err3_norm_2
-                err_norm = np.abs(h) * err5_norm_2 / np.sqrt(denom * scale.size)
+                # err5 / err3 returned by the step kernel already carry the factor h
+                err_norm = err5_norm_2 / np.sqrt(denom * scale.size)
 
             if err_norm <= 1.0:
                 # accept
